@@ -485,3 +485,62 @@ Proof.
   intros e dm doc doc' P. rewrite !attrs_t_correct.
   split; apply attrs_valid_t_perm; [exact P|apply Permutation_sym; exact P].
 Qed.
+
+(** ---- name spaces of the DTD ------------------------------------------------------------------------ *)
+Lemma first_general_other : forall n a k m b, is_general k = false ->
+  first_general n (a ++ (k, m) :: b) = first_general n (a ++ b).
+Proof.
+  intros n a k m b H. induction a as [|[k1 m1] a IH]; cbn [app first_general].
+  - rewrite H. reflexivity.
+  - destruct (is_general k1 && Nat.eqb m1 n); [reflexivity|exact IH].
+Qed.
+
+Lemma gnames_other : forall a k m b, is_general k = false -> gnames (a ++ (k, m) :: b) = gnames (a ++ b).
+Proof.
+  intros a k m b H. unfold gnames. rewrite !filter_app. cbn [filter fst]. rewrite H. reflexivity.
+Qed.
+
+(** a parameter entity, notation or element type of any name, anywhere, does not change the general entities *)
+Theorem decl_kinds_separate : forall a k m b, is_general k = false ->
+  env_of_decls (a ++ (k, m) :: b) = env_of_decls (a ++ b).
+Proof.
+  intros a k m b H. unfold env_of_decls. rewrite (gnames_other a k m b H). f_equal.
+  - apply filter_ext. intros n. rewrite (first_general_other n a k m b H). reflexivity.
+  - apply filter_ext. intros n. rewrite (first_general_other n a k m b H). reflexivity.
+Qed.
+
+(** within the general entities the first declaration of a name is binding *)
+Theorem first_general_wins : forall n a b k0, first_general n a = Some k0 -> first_general n (a ++ b) = Some k0.
+Proof.
+  intros n a b k0. induction a as [|[k1 m1] a IH]; cbn [app first_general]; [discriminate|].
+  destruct (is_general k1 && Nat.eqb m1 n); [auto|exact IH].
+Qed.
+
+Lemma first_general_in : forall n ds k, first_general n ds = Some k -> In n (gnames ds).
+Proof.
+  intros n. induction ds as [|[k1 m1] ds IH]; intros k H; cbn [first_general] in H; [discriminate|].
+  unfold gnames. cbn [filter fst]. destruct (is_general k1) eqn:Eg; cbn [andb] in H.
+  - cbn [map snd In]. destruct (Nat.eqb_spec m1 n) as [E|E]; [left; exact E|right; apply (IH k H)].
+  - apply (IH k H).
+Qed.
+
+Theorem env_unparsed_iff : forall ds n,
+  memb n (unparsed (env_of_decls ds)) = true <-> first_general n ds = Some KUnparsed.
+Proof.
+  intros ds n. rewrite memb_in. unfold env_of_decls. cbn [unparsed]. rewrite filter_In. split.
+  - intros [_ H]. destruct (first_general n ds) as [[| | | |]|]; try discriminate. reflexivity.
+  - intros H. split; [apply (first_general_in n ds _ H)|rewrite H; reflexivity].
+Qed.
+
+Theorem env_parsed_iff : forall ds n,
+  memb n (parsed (env_of_decls ds)) = true <-> first_general n ds = Some KParsed.
+Proof.
+  intros ds n. rewrite memb_in. unfold env_of_decls. cbn [parsed]. rewrite filter_In. split.
+  - intros [_ H]. destruct (first_general n ds) as [[| | | |]|]; try discriminate. reflexivity.
+  - intros H. split; [apply (first_general_in n ds _ H)|rewrite H; reflexivity].
+Qed.
+
+(** hence the attribute verdicts: declarations of the other kinds are invisible to them *)
+Theorem attrs_ignore_other_kinds : forall sw a k m b dm doc, is_general k = false ->
+  attr_errors_t sw (env_of_decls (a ++ (k, m) :: b)) dm doc = attr_errors_t sw (env_of_decls (a ++ b)) dm doc.
+Proof. intros. rewrite decl_kinds_separate by assumption. reflexivity. Qed.
